@@ -511,6 +511,99 @@ def executed_calls(stmts, asg):
     return out
 
 
+
+
+def may_be_names(fn_node, name, depth=3):
+    """names of locals whose VALUE the local `name` may be (identity, not derivation): through `x = y`, `x = a if c else b`,
+    `x = min(a, b)` / `max`, `x = a or b`, and tuple assignments `x, y = a, b`"""
+    def choices(e):
+        if isinstance(e, ast.Name):
+            return {e.id}
+        if isinstance(e, ast.IfExp):
+            return choices(e.body) | choices(e.orelse)
+        if isinstance(e, ast.BoolOp):
+            return set().union(*[choices(v) for v in e.values])
+        if isinstance(e, ast.Call) and getattr(e.func, "id", None) in ("min", "max") and len(e.args) >= 2:
+            return set().union(*[choices(a) for a in e.args])
+        return set()
+    direct = {}
+    for st in ast.walk(fn_node):
+        if isinstance(st, ast.Assign):
+            for tgt in st.targets:
+                if isinstance(tgt, ast.Name):
+                    direct.setdefault(tgt.id, set()).update(choices(st.value))
+                elif isinstance(tgt, ast.Tuple) and isinstance(st.value, ast.Tuple) and len(tgt.elts) == len(st.value.elts):
+                    for t_, v_ in zip(tgt.elts, st.value.elts):
+                        if isinstance(t_, ast.Name):
+                            direct.setdefault(t_.id, set()).update(choices(v_))
+                elif isinstance(tgt, ast.Tuple) and isinstance(st.value, ast.IfExp):
+                    for br in (st.value.body, st.value.orelse):
+                        if isinstance(br, ast.Tuple) and len(br.elts) == len(tgt.elts):
+                            for t_, v_ in zip(tgt.elts, br.elts):
+                                if isinstance(t_, ast.Name):
+                                    direct.setdefault(t_.id, set()).update(choices(v_))
+    out, frontier = {name}, {name}
+    for _ in range(depth):
+        frontier = set().union(*[direct.get(n, set()) for n in frontier]) - out
+        out |= frontier
+    return out
+
+
+def lower_block(stmts):
+    """A copy of a block in which the boolean skeleton is explicit: (1) a local assigned once in the block from an
+    expression and only read afterwards (`waiting = work.contains(c, s)`) is replaced, where it is read inside a test,
+    by that expression; (2) a statement whose call arguments contain a conditional expression
+    (`work.insert(a if t else b, s)`) becomes `if t: work.insert(a, s) else: work.insert(b, s)`.  Positions (lineno,
+    col_offset) of the copied nodes are those of the originals, so nodes can be matched back."""
+    import copy
+    stmts = copy.deepcopy(list(stmts))
+    single = {}
+    for s_ in stmts:
+        for sub in ast.walk(s_):
+            if isinstance(sub, ast.Assign) and len(sub.targets) == 1 and isinstance(sub.targets[0], ast.Name):
+                single.setdefault(sub.targets[0].id, []).append(sub.value)
+            elif isinstance(sub, (ast.AugAssign, ast.For, ast.comprehension, ast.NamedExpr)):
+                for n in ast.walk(sub.target):
+                    if isinstance(n, ast.Name):
+                        single.setdefault(n.id, []).extend([None, None])
+    single = {k: v[0] for k, v in single.items() if len(v) == 1 and v[0] is not None}
+
+    class Inline(ast.NodeTransformer):
+        def visit_Name(self, n):
+            if isinstance(n.ctx, ast.Load) and n.id in single:
+                return copy.deepcopy(single[n.id])
+            return n
+
+    def inline_test(t):
+        return Inline().visit(t)
+
+    def lower_stmt(st):
+        for fieldname in ("body", "orelse", "finalbody"):
+            blk = getattr(st, fieldname, None)
+            if isinstance(blk, list):
+                setattr(st, fieldname, [x for y in blk for x in lower_stmt(y)])
+        if isinstance(st, (ast.If, ast.While)):
+            st.test = inline_test(st.test)
+            return [st]
+        if isinstance(st, (ast.Expr, ast.Assign, ast.AugAssign, ast.Return)):
+            ife = next((x for x in ast.walk(st) if isinstance(x, ast.IfExp)), None)
+            if ife is not None:
+                def variant(pick):
+                    class Pick(ast.NodeTransformer):
+                        def visit_IfExp(self, n):
+                            if n is ife_copy[0]:
+                                return self.visit(n.body if pick else n.orelse)
+                            return self.generic_visit(n)
+                    c = copy.deepcopy(st)
+                    ife_copy = [next(x for x in ast.walk(c) if isinstance(x, ast.IfExp))]
+                    return Pick().visit(c)
+                node = ast.If(test=inline_test(copy.deepcopy(ife.test)), body=lower_stmt(variant(True)),
+                              orelse=lower_stmt(variant(False)))
+                return [ast.copy_location(node, st)]
+        return [st]
+    return [x for y in stmts for x in lower_stmt(y)]
+
+
 def assignments(atoms):
     import itertools
     keys = sorted(atoms)
